@@ -13,6 +13,7 @@ from vx import (
     Src,
     Undecided,
     Unsupported,
+    extract_arm,
     extract_fn,
     extract_type,
     impl_header,
@@ -162,6 +163,24 @@ def build_unit(sidecar_path, sources, variant=None):
         u.fns.append(ch)
         if f.get("after"):
             groups.append((None, None, [Chunk("after:" + f["path"], f["after"], kind="spec")]))
+    # R16 arm extraction
+    for a in sc.get("arm", []):
+        src = sources(a.get("source", default_src))
+        ex = extract_arm(src, a, rules)
+        for k, v in ex["counts"].items():
+            u.counts[k] = u.counts.get(k, 0) + v
+        ob = f"{u.name}/{a.get('ob', a['name'])}"
+        body = f"// ---- extracted arm `{a['arm']}` of {a['path']} from {src.label} bytes {ex['item']['range']}  obligation {ob}\n" + ex["text"]
+        hdr = a.get("impl_header")
+        tyname = a.get("impl_type")
+        vn = f"{u.name}::{tyname}::{a['name']}" if tyname else f"{u.name}::{a['name']}"
+        ch = Chunk("arm:" + a["name"], body, ob=ob, kind="fn", meta={"hash": ex["hash"], "raw": ex["raw"], "vnames": [vn], "spec": dict(a, path=a["path"] + " arm " + a["arm"]), "trait_impl": False})
+        u.functions_under_contract.append(a["path"] + " :: arm " + a["arm"])
+        u.fns.append(ch)
+        if hdr:
+            groups.append((("arm", a["name"]), hdr, [ch]))
+        else:
+            groups.append((None, None, [ch]))
     for key, hdr, chs in groups:
         if key is None:
             for c in chs:
